@@ -70,7 +70,7 @@ WRONG_DBC = ["BO_ abc F: 8 E1", "BO_ 16 F: x E1", "BO_TX_BU_ abc : E1;", "SIG_VA
              "SG_MUL_VAL_ {fid} nosuchsignal {sig} 1-1;"]
 RAISES = {"BO_ abc F: 8 E1", "BO_ 16 F: x E1", "SIG_VALTYPE_ abc s : 1;", "SIG_GROUP_ abc g 1 : s;", "SG_MUL_VAL_ {fid} {sig} {sig} x-y;"}
 MATCHOK = {"SG_MUL_VAL_ {fid} nosuchsignal {sig} 1-1;"}
-UNKNOWN_SYM = ["FOO=bar", "XYZ", "Len=8", "Color=red", "Type=Extnded", "Type=", "Type=29"]
+UNKNOWN_SYM = ["FOO=bar", "XYZ", "Len=8", "Color=red", "Type=Extnded", "Type=", "Type=29", "{FOO}", "{SIGNALS}"]
 BAD_SYM = ["Type", "Var=x unsigned", "Var=x unsigned a,b", "Var=x nosuchtype 0,8", "DLC=abc", "Var=", "Mux=m 0,x 1", "CycleTime=abc", "ID=zzzh"]
 
 
